@@ -19,6 +19,19 @@ CHECKS = {
              'tau >= 1e-3*scale are excluded and counted. Counterexamples are replayed on the final value of the real Derivative.',
         technique=TECH + ' (QF_LRA)',
         design='3/C01'),
+    'C02': dict(
+        text='RESTRICTED sub-claim, bounded solver verdict. Unit harness on the real _Limit._extrapolate (Richardson -> dea3 -> '
+             'outlier penalty with a symbolic percentile -> per-column argmin with tie rule -> gather/reshape) over fresh symbolic '
+             'k x c tables: on every feasible selection path (value, error, final_step)[c] come from one common row, error is the '
+             'column minimum of the penalised errors and >= 0, and inputs within t of X give |value-X| <= error + W*t (the Wynn step '
+             'is covered because abserr >= |result - v2|). Record of all five classes on symbolic-coefficient functions: f_value is '
+             'f(x), shapes broadcast-compatible, final_step among the generated steps. With C01 this gives |result-exact| <= '
+             'error_estimate + W*tau on the polynomial family; calibration of the estimate is NOT claimed.',
+        note='Trusted: z3 (QF_UFLRA); quotients and symbolic products inside dea3 uninterpreted (claims hold for any value); '
+             'convolve1d reference; bounds k<=8 rows, c<=4 columns (9 thorough). A change that only rescales the estimate '
+             '(e.g. 12.7 -> 1.27) is not detected and not claimed.',
+        technique=TECH + ' (QF_UFLRA), all selection paths explored with solver-decided feasibility',
+        design='3/C02'),
     'C05': dict(
         text='Bounded solver verdict over all x, all positive base steps and every value of the nominal-step log(): every '
              'argument the five derivative classes pass to the user function is admissible (one-sided / mirrored / exact real '
@@ -53,6 +66,17 @@ CHECKS = {
              'listed in known_findings.json (num_terms=0 error-array length).',
         technique=TECH + ' (QF_LRA)',
         design='3/C07'),
+    'C08': dict(
+        text='Bounded non-interference (2-safety) verdict: on the real selection pipeline over symbolic k x c tables no branch '
+             'decision mixes columns, the outputs of a column are terms over that column only, paths agreeing on a column\'s '
+             'decisions return identical terms (also against the single-column run), gather/reshape is C-order; _vstack puts '
+             'evaluation i in row i and element j in column j; end-to-end Derivative on x with 0..3 axes and per-element symbolic '
+             'coefficients: shape preserved, entry idx depends only on element idx and equals the scalar run; *args/**kwds '
+             'forwarded on every call.',
+        note='Trusted: z3 for path feasibility; exact arithmetic. Bit-identity in float64 follows only under the stated '
+             'assumption that numpy elementwise kernels are position-independent. Bounds: <= 7 rows, <= 4 columns in the forking unit.',
+        technique=TECH + '; non-interference by self-composition over solver-validated paths',
+        design='3/C08'),
     'C10': dict(
         text='Solver verdicts on the real step generators: Basic{Max,Min}StepGenerator with symbolic base step and ratio '
              '(closed form, order, strict geometric decrease, nothing for a zero base); Min/MaxStepGenerator with symbolic x and '
